@@ -141,7 +141,8 @@ class AFMReader(TextToModel):
         if range_domain_node is not None:
             range_list = []
             for domain_range in range_domain_node.domain_range():
-                range_list.append(Range(domain_range.INT()[0], domain_range.INT()[1]))
+                range_list.append(Range(int(domain_range.INT()[0].getText()),
+                                        int(domain_range.INT()[1].getText())))
             domain = Domain(range_list, None)
 
         default_value = attribute_spec.attribute_default_value().value_spec().getText()
